@@ -91,5 +91,3 @@ Qed.
 Theorem code_injective allids x y j : code (uniques allids) (Some x) = Some j -> code (uniques allids) (Some y) = Some j -> x = y.
 Proof. cbn. apply index_of_inj. Qed.
 End Table.
-Print Assumptions decode_code.
-Print Assumptions uniques_prefix.
